@@ -207,7 +207,8 @@ def parse_race_logs(outdir, subname):
                     f2 = m.group(1)
                     if RE_HARNESS.search(f2):
                         continue
-                    fr = f2.replace(GORDIAN + "/", "")
+                    fr = re.sub(r"\[go\.shape[^\]]*\]", "[...]", f2.replace(GORDIAN + "/", ""))
+                    fr = re.sub(r"\[.{40,}\]", "[...]", fr)
                     break
                 frames.append(fr)
             while len(frames) < 2:
@@ -251,6 +252,14 @@ def run_sub(prop, tier, seed, sub, overlay, modfile, outdir, replay=None):
     env["VERIF_PROP"] = prop
     if replay:
         env["VERIF_REPLAY"] = replay
+        try:
+            case = str(json.load(open(replay)).get("case") or "")
+            env["VERIF_REPLAY_CASE"] = case
+            m = re.search(r"(\d+)$", case)
+            if m:
+                env["VERIF_ONLY_CASE"] = m.group(1)
+        except Exception:
+            pass
     for k, v in (sub.get("env") or {}).items():
         env[k] = str(v)
     if sub.get("race"):
@@ -287,9 +296,17 @@ def run_check(prop, tier, replay=None):
     spec = CHECKS[prop]
     seed = int(os.environ.get("VERIF_SEED", "1") or "1")
     t0 = time.time()
-    outdir = os.path.join(WORK, prop)
+    replay_data = None
+    if replay:
+        replay_data = json.load(open(replay))
+    outdir = os.path.join(WORK, prop + ("-replay" if replay else ""))
     shutil.rmtree(outdir, ignore_errors=True)
     os.makedirs(outdir, exist_ok=True)
+    if replay:
+        # keep a copy next to the replay output; the original may live in work/<prop>
+        replay = os.path.join(outdir, "replay-input.json")
+        with open(replay, "w") as fh:
+            json.dump(replay_data, fh, indent=1)
     overlay = write_overlay()
     modfile = prepare_modfiles()
     known, _fixed = load_known()
@@ -298,7 +315,7 @@ def run_check(prop, tier, replay=None):
 
     subs = [s for s in spec["subs"] if tier in s.get("tiers", ("quick", "thorough"))]
     if replay:
-        w = json.load(open(replay))
+        w = replay_data
         subs = [s for s in spec["subs"] if s["name"] == w.get("sub")] or subs[:1]
         seed = int(w.get("seed", seed))
         tier = w.get("tier", tier)
